@@ -55,25 +55,40 @@ def spec(tier, seed):
                              unwindset={"memcmp.0": 20}, stubs=[FROM_UTF8_STUB], mem_gb=8, timeout_s=1500,
                              sub="C11a keyword line with symbolic tail", params=dict(keyword=pfx.decode(), tail_bytes=tail)))
     # hunk / hunks on short symbolic buffers behind a concrete header
-    for L in ([6] if q else [2, 6, 8]):
-        inst.append(Instance("c11a_hunk_%d" % L, "parser", "t_hunk_body::<%d>()" % L, unwind=24, unwindset={"memcmp.0": 6}, stubs=[FROM_UTF8_STUB],
+    for L in ([4] if q else [2, 4, 6]):
+        inst.append(Instance("c11a_hunk_%d" % L, "parser", "t_hunk_body::<%d>()" % L, unwind=20, unwindset={"memcmp.0": 6}, stubs=[FROM_UTF8_STUB],
                              mem_gb=8, timeout_s=1500, sub="C11a parse_hunk: concrete header, symbolic body", params=dict(body_bytes=L)))
-    # (b) numeric fields
+    # (b) numeric fields through parse_hunk: concrete extreme values in one field (the others 1), symbolic body.
+    # (Symbolic digit strings through parse_hunk exceed 8 GB: reserve() of a symbolic count; the header-only family
+    #  c11b_value below decides every digit string for the number parser itself.)
+    VALUES = [0, 1, 2**31, 2**63 - 1, 2**63, 2**63 + 1, 2**64 - 1, 2**64, 10**20]
     combos = []
-    for d in DIGITS:
-        combos += [(d, 1, 1, 1), (1, d, 1, 1), (1, 1, d, 1), (1, 1, 1, d)]
+    for pos in range(4):
+        for v in VALUES:
+            f = [1, 1, 1, 1]
+            f[pos] = v
+            combos.append(tuple(f))
     combos = sorted(set(combos))
     if q:
-        combos = [(20, 1, 1, 1), (1, 20, 1, 1), (1, 1, 19, 1), (1, 1, 1, 20), (1, 10, 1, 1)]
-    for (a, b, c, d) in combos:
-        n = 4 + a + 1 + b + 2 + c + 1 + d + 4 + 4
-        inst.append(Instance("c11b_num_%d_%d_%d_%d" % (a, b, c, d), "parser", "t_numeric::<%d>(%d, %d, %d, %d)" % (n, a, b, c, d), unwind=max(a, b, c, d) + 12,
+        combos = [(1, 2**64 - 1, 1, 1), (1, 1, 1, 2**64 - 1), (2**63, 1, 1, 1), (1, 1, 2**63, 1), (1, 10**12, 1, 1), (2**64 - 1, 1, 2**64 - 1, 1), (0, 0, 1, 1), (1, 1, 0, 0)]
+    for (a_, b_, c_, d_) in combos:
+        hdr = "@@ -%d,%d +%d,%d @@\n" % (a_, b_, c_, d_)
+        n = len(hdr) + 4
+        nm = "c11b_num_%s" % "_".join(("e%d" % (len(str(x)) - 1) if x >= 10**12 and str(x).strip("0") == "1" else ("p%d%s" % (x.bit_length() - (0 if x & (x - 1) else 1), "" if x & (x - 1) == 0 else "m" if (x + 1) & x == 0 else "x") if x > 9 else str(x))) for x in (a_, b_, c_, d_))
+        inst.append(Instance(nm, "parser", "t_numeric_conc::<%d>(%s)" % (n, bytes_lit(hdr.encode())), unwind=max(len(hdr), 26) + 2,
                              unwindset={"memcmp.0": 6}, stubs=[FROM_UTF8_STUB], mem_gb=8, timeout_s=1500, sub="C11b/d numeric fields through parse_hunk; capacity",
-                             must_cover=["hunk rejected"], params=dict(digits=[a, b, c, d])))
+                             params=dict(header=hdr.strip(), body="4 symbolic bytes")))
     for d in ([20] if q else [1, 19, 20, 21]):
         n = 4 + d + 11
         inst.append(Instance("c11b_value_%d" % d, "parser", "t_header_value::<%d>(%d)" % (n, d), unwind=d + 14, unwindset={"memcmp.0": 6},
                              stubs=[FROM_UTF8_STUB], mem_gb=8, timeout_s=1500, sub="C11b number value or rejection", params=dict(digits=d)))
+    # (c) termination of placement for any line number the parser can deliver
+    for (n, sh) in ([(3, (1, 1, 1, 1))] if q else [(3, (1, 1, 1, 1)), (3, (0, 1, 1, 0)), (4, (0, 1, 0, 1)), (2, (1, 0, 1, 0))]):
+        inst.append(Instance("c11c_place_any_line_n%d_p%dr%da%ds%d" % ((n,) + sh), "patchpriv",
+                             "place_any_line::<%d>(Shape { p: %d, r: %d, a: %d, s: %d })" % ((n,) + sh), unwind=n + 4, unwindset={"memcmp.0": 3},
+                             mem_gb=6, timeout_s=1200, sub="C11c placement terminates for any stated line (0 ..= isize::MAX/2)",
+                             must_cover=["stated line far behind the end of the file"], unwind_is_violation=True,
+                             params=dict(file_lines=n, shape=list(sh), stated_line="any 0..=2^62")))
     return {
         "instances": inst,
         "level": "model_checking",
